@@ -100,6 +100,36 @@ def _scanned_aux(prog, sub):
     return ids
 
 
+def replay_explain(case, ob):
+    """ask the real `souffle -t explain` for the proof of every tuple of the relation on the model database"""
+    import os
+    refprog = dl.Program.parse(case.ref_text)
+    d = os.path.join(common.VERIF, "replays", PID, "%s__%s__%s" % (case.name, ob["relation"], ob["obligation"].replace(" ", "_")))
+    os.makedirs(d, exist_ok=True)
+    facts = {k: [tuple(t) for t in v] for k, v in ob["facts"].items()}
+    req.write_facts(refprog, facts, os.path.join(d, "facts"))
+    # the relation must be visible: output it
+    text = case.text if ob["relation"] in refprog.outputs else case.text + "\n.output %s\n" % ob["relation"]
+    rc, real, err = req.run_real(text, req.Cfg("plain"), os.path.join(d, "facts"), os.path.join(d, "out"))
+    rows = sorted(real.get(ob["relation"], set()))[:8]
+    if rc != 0 or not rows:
+        return False, "plain run failed or relation empty on the model database", d
+    cmds = ["setdepth 30"] + ["explain %s(%s)" % (ob["relation"], ", ".join(r.split("\t")) if r != "()" else "") for r in rows] + ["exit"]
+    open(os.path.join(d, "explain.in"), "w").write("\n".join(cmds) + "\n")
+    rc, out, err = common.sh([common.SOUFFLE, "-w", "-t", "explain", "-F", os.path.join(d, "facts"), "-D", os.path.join(d, "out"),
+                              os.path.join(d, "out", "prog.dl")], timeout=120, input="\n".join(cmds) + "\n", cwd=d)
+    open(os.path.join(d, "explain.out"), "w").write(out + "\n--- stderr\n" + err)
+    open(os.path.join(d, "README"), "w").write("souffle -t explain -F facts out/prog.dl < explain.in > explain.out\nobligation: %s for relation %s\n" % (ob["obligation"], ob["relation"]))
+    bad = []
+    if rc != 0:
+        bad.append("souffle -t explain exited with %d" % rc)
+    if "subproof" in out:
+        bad.append("a proof did not bottom out in facts within depth 30 (circular / ever-growing proof)")
+    if "not found" in out.lower():
+        bad.append("an output tuple could not be explained")
+    return bool(bad), "; ".join(bad) or "all %d tuples explained with finite proofs" % len(rows), d
+
+
 def run(tier, seed, only=None):
     cfgs = [req.Cfg("explain", flags=["-t", "explain"]), req.Cfg("explain-j4", flags=["-t", "explain", "-j4"])]
     cs = [c for c in corpus.corpus(tier) if c.family in FAMS and (not only or only in c.name)]
@@ -126,9 +156,14 @@ def run(tier, seed, only=None):
             if ob["verdict"] == "holds":
                 held += 1
             elif ob["verdict"] == "violated":
-                res.violation("subproof|%s|%s|%s" % (o["case"], ob["relation"], ob["obligation"]),
-                              "provenance proof-step obligation '%s' fails for relation %s of %s on database %s" % (
-                                  ob["obligation"], ob["relation"], o["case"], ob.get("facts")), "")
+                case = [c for c in cs if c.name == o["case"]][0]
+                ok, info, d = replay_explain(case, ob)
+                if ok:
+                    res.violation("subproof|%s|%s|%s" % (o["case"], ob["relation"], ob["obligation"]),
+                                  "provenance proof-step obligation '%s' fails for relation %s of %s: %s" % (
+                                      ob["obligation"], ob["relation"], o["case"], info), d)
+                else:
+                    res.inconc("%s %s %s: counterexample did not reproduce with the real explain: %s" % (o["case"], ob["relation"], ob["obligation"], info))
             else:
                 res.inconc("%s %s %s: solver gave no verdict" % (o["case"], ob["relation"], ob["obligation"]))
         if len(samples) < 4:
